@@ -14,7 +14,31 @@ def _tf_nontrivial(line, verdict):
     return line.endswith(" 1 0") or line.endswith(" 0 1")
 
 
+def _op_nontrivial(line, verdict):
+    # the operator matched, or its factory rejected the argument
+    return line.endswith("=> 1") or line.endswith("=> ERR")
+
+
 PROPS = {
+    "C15": {
+        "engines": [
+            {"name": "op", "quick": 120000, "thorough": 4000000, "shards": 8},
+        ],
+        "nontrivial": _op_nontrivial,
+        "rule": "op: (operator, argument, value) triples — phrases at the very start/end of the value and one byte short, "
+                "numeric strings at the int64 boundaries and malformed, byte ranges touching 0/255 and malformed, '%' followed "
+                "by every byte value in either nibble position, truncated escapes, invalid UTF-8. Non-trivial = the operator "
+                "matched or its factory rejected the argument; distinct = distinct protocol line.",
+        "modelled": "modelled and proved: streq contains beginsWith endsWith within eq ge gt le lt validateUrlEncoding "
+                    "validateUtf8Encoding validateByteRange pm(ASCII phrases) unconditionalMatch noMatch on literal arguments. "
+                    "Parameters (assumed contracts): Aho-Corasick matcher, strings.Contains/HasPrefix/HasSuffix, strconv.Atoi.",
+        "assumptions": [
+            "Aho-Corasick library: reports a match iff some non-empty pattern is an ASCII-case-insensitive infix",
+            "@rx (Go regexp, RE2) and @ipMatch (net.IPNet) are oracles, not modelled in this engine",
+            "macro expansion of operator arguments is modelled in the engine model (C09), not here",
+        ],
+        "open_statements": [],
+    },
     "C14": {
         "engines": [
             {"name": "tf", "quick": 40000, "thorough": 1600000, "shards": 8},
